@@ -398,7 +398,7 @@ func c04Replay(c *Ctx, h *c04Run) {
 
 func runC04(c *Ctx) {
 	r := c.R
-	r.Rule = "outcome class of parser.Parse / expr.Compile / expr.Eval / expr.Run under recover + 5 s deadline for: systematic enumerations (every escape introducer x 0..9 following digits x both quotes x closed/extended/unterminated, alone and embedded; number-token stems x tails; word-operator prefixes and extensions in every operand position; int32/int64 boundary literals incl. hex and overflowing folds in 22 operator/range/index/slice templates x 6 option sets), 200 hand-written failure-mode sources and the zoo generator's sources, their byte/token mutations, random byte strings up to 64 KiB (random bytes, ASCII, multi-plane UTF-8, token soup), 31 nesting bombs of 64 KiB (child process), the full 6400-element option matrix x 4 sources plus random option subsets on every stream, 12 run-time environments (nil, zero, wrongly typed, panicking members); plus the C12 lexer correspondence (Lean lexer model, proved total) on ~50 000 of these strings; non-trivial = non-empty input that reached an outcome; distinct by (api, options, source)"
+	r.Rule = "outcome class of parser.Parse / expr.Compile / expr.Eval / expr.Run under recover + 5 s deadline for: systematic enumerations (every escape introducer x 0..9 following digits x both quotes x closed/extended/unterminated, alone and embedded; number-token stems x tails; word-operator prefixes and extensions in every operand position; int32/int64 boundary literals incl. hex and overflowing folds in 22 operator/range/index/slice templates x 6 option sets), 200 hand-written failure-mode sources and the zoo generator's sources, their byte/token mutations, random byte strings up to 64 KiB (random bytes, ASCII, multi-plane UTF-8, token soup), 31 nesting bombs of 64 KiB (child process), the full 7680-element option matrix x 4 sources plus random option subsets on every stream, 12 run-time environments (nil, zero, wrongly typed, panicking members); plus the C12 lexer correspondence (Lean lexer model, proved total) on ~50 000 of these strings; non-trivial = non-empty input that reached an outcome; distinct by (api, options, source)"
 	h := &c04Run{c: c, best: map[string]Violation{}, size: map[string]int{}}
 	if c.Replay != "" {
 		c04Replay(c, h)
@@ -426,7 +426,7 @@ func runC04(c *Ctx) {
 	}
 	// 1. hand-written sources: every source x a spread of option sets x all environments; Parse + Eval on all envs
 	baseOpts := []c04Opts{{Env: 1}, {Env: 2}, {Env: 0}, {Env: 3}, {Env: 1, NoOpt: true}, {Env: 2, Undef: true}, {Env: 1, As: 1}, {Env: 1, As: 2}, {Env: 1, As: 3},
-		{Env: 2, As: 1}, {Env: 0, As: 1}, {Env: 1, Op: 1}, {Env: 1, CE: 1}, {Env: 1, CE: 4}, {Env: 1, Patch: 1}, {Env: 1, Patch: 2}, {Env: 1, Patch: 3}, {Env: 1, Patch: 4},
+		{Env: 2, As: 1}, {Env: 0, As: 1}, {Env: 1, Op: 1}, {Env: 1, Op: 5}, {Env: 2, Op: 5, Undef: true}, {Env: 1, CE: 1}, {Env: 1, CE: 4}, {Env: 1, Patch: 1}, {Env: 1, Patch: 2}, {Env: 1, Patch: 3}, {Env: 1, Patch: 4},
 		{Env: 1, Patch: 5}, {Env: 1, Patch: 6}, {Env: 1, Patch: 7}, {Env: 2, Patch: 1, NoOpt: true}, {Env: 0, Patch: 1}}
 	gen, _ := fxSources(c.Rng, nGen, 4, false)
 	var seeds []string
